@@ -1,6 +1,6 @@
 #!/bin/bash
 # usage: confirmseed.sh <P> <m>   -- confirms a seeded change in a scratch worktree of /repo HEAD
-P=$1; M=$2; D=/tmp/wt2/$P/_seeded/$M; W=/tmp/wtc
+P=$1; M=$2; D=${SEEDROOT:-/tmp/wt3}/$P/_seeded/$M; W=/tmp/wtc
 export GOFLAGS=-mod=mod GOPROXY=off GOSUMDB=off
 cd /repo && git worktree remove --force $W 2>/dev/null; git worktree add -q --detach $W HEAD || exit 2
 cd $W
